@@ -173,7 +173,6 @@ class USBControlEndpoint(Elaboratable):
             interface.handshakes_out.ack           .eq(setup_decoder.ack | request_handler.handshakes_out.ack),
             interface.handshakes_out.nak           .eq(request_handler.handshakes_out.nak),
             interface.handshakes_out.stall         .eq(request_handler.handshakes_out.stall),
-            interface.handshakes_in                .connect(request_handler.handshakes_in),
 
             interface.address_changed              .eq(request_handler.address_changed),
             interface.new_address                  .eq(request_handler.new_address),
@@ -195,6 +194,16 @@ class USBControlEndpoint(Elaboratable):
         # Behavior dictated by [USB2, 8.5.3].
         #
         endpoint_targeted = (self.interface.tokenizer.endpoint == self._endpoint_number)
+
+        # Only pass on the handshakes that conclude an IN transaction on this endpoint; handshakes the
+        # host sends to other endpoints (or to other devices) must not be taken as acknowledging our data.
+        handshake_targeted = endpoint_targeted & interface.tokenizer.is_in
+        m.d.comb += [
+            request_handler.handshakes_in.ack      .eq(interface.handshakes_in.ack   & handshake_targeted),
+            request_handler.handshakes_in.nak      .eq(interface.handshakes_in.nak   & handshake_targeted),
+            request_handler.handshakes_in.stall    .eq(interface.handshakes_in.stall & handshake_targeted),
+            request_handler.handshakes_in.nyet     .eq(interface.handshakes_in.nyet  & handshake_targeted),
+        ]
         with m.FSM(domain="usb"):
 
             # SETUP -- The "SETUP" phase of a control request. We'll wait here
